@@ -67,7 +67,9 @@ DefaultEndpointsSafe == \A e \in served : ~insts[e.inst].relaxed => ~Resolves(e.
 \* ---- Part 2: the corpus
 \* anyxml_text: the request has an argument of type AnyXml (user code gets a tree); the attack is a whole DOCUMENT, DOCTYPE and
 \* all, sent as the character data of that argument (escaped): character data is not markup, nothing may parse it again
-Positions  == {"text_unicode", "text_integer", "text_nested", "text_item", "attr_value", "anyxml_text"}
+\* anydict_leaf: the request has an argument of type AnyDict (user code gets a dictionary built from the elements); the reference
+\* stands in a leaf of it, with character data before and after
+Positions  == {"text_unicode", "text_integer", "text_nested", "text_item", "attr_value", "anyxml_text", "anydict_leaf"}
 \* "schema": not a request at all - an XML Schema DOCUMENT given to the schema reader (spyne.util.xml.parse_schema_string, the
 \* interface's XmlSchemaParser): reading a document never makes the process open a file or a connection the document names
 Protocols  == {"xml", "soap11", "soap12", "schema"}
@@ -88,16 +90,19 @@ SettingsOf(g) == [k \in DOMAIN Default |-> IF k \in DOMAIN g THEN g[k] ELSE Defa
 OptsAreBenign == \A o \in Opts : SettingsOf(Given(o)) = Default      \* so every attack of the corpus must fail under each of them
 Framings   == {"plain", "charset_decl", "multipart", "multipart_att", "ctrl_char"}     \* ctrl_char: a C0 control character (never legal in XML 1.0) in front of the payload
 Applies(a) == /\ (a.framing \in {"multipart", "multipart_att"} => a.transport = "wsgi" /\ a.prot \in {"soap11", "soap12"})
-              /\ (a.kind \in Bombs \ {"attrs_50000"} => a.pos \in {"text_unicode", "text_nested", "anyxml_text"})       \* one bomb is enough per document
+              /\ (a.kind \in Bombs \ {"attrs_50000"} => a.pos \in {"text_unicode", "text_nested", "anyxml_text", "anydict_leaf"})       \* one bomb is enough per document
               /\ (a.kind = "attrs_50000" => a.pos = "attr_value")
               /\ (a.kind \in {"ext_dtd_file", "ext_dtd_http", "ext_param_file", "ext_param_http"} => a.pos \in {"text_unicode", "attr_value"})   \* these live in the prolog (what they declare may show in a text or in an attribute)
               /\ (a.prot = "schema" => a.kind \in {"ext_dtd_file", "ext_dtd_http", "ext_param_file", "ext_param_http", "ext_general_file", "ext_general_http"}
                                          /\ a.pos = "text_unicode" /\ a.transport = "base" /\ a.framing = "plain" /\ a.validator = "none")
               /\ (a.pos = "anyxml_text" => a.kind \in {"internal_entity", "ext_general_file", "ext_general_http", "laughs_3x4"} /\ a.framing = "plain")
+              /\ (a.pos = "anydict_leaf" => a.kind \in {"internal_entity", "ext_general_file", "ext_general_http", "laughs_3x4", "entity_depth_50"}
+                                              /\ a.framing = "plain" /\ a.validator = "none" /\ a.opts = "none")
               /\ (a.kind \in HrefBombs => a.prot # "xml" /\ a.pos = "text_nested" /\ a.framing = "plain")
               /\ (a.validator = "lxml" => a.kind \in External \cup Internal /\ a.framing = "plain")
               /\ (a.opts # "none" => a.kind \in External \cup Internal /\ a.framing = "plain" /\ a.validator = "none" /\ a.transport = "wsgi"
                                       /\ a.prot # "schema" /\ a.pos \in {"text_unicode", "attr_value", "text_nested"})
+              /\ (a.prot = "schema" => a.pos = "text_unicode")
 Attacks == {a \in [kind : Kinds, pos : Positions, prot : Protocols, transport : Transports, framing : Framings, validator : Validators, opts : Opts] : Applies(a)}
 AppliesMore(a) == /\ (a.framing \in {"multipart", "multipart_att"} => a.transport = "wsgi" /\ a.prot \in {"soap11", "soap12"})
                   /\ (IF a.kind \in {"attrs_1000", "attrs_200000"} THEN a.pos = "attr_value" ELSE a.pos \in {"text_unicode", "text_nested"})
